@@ -1,5 +1,6 @@
 import TsRsVerif.Model.Export
 import TsRsVerif.Lemmas.ExportLemmas
+import TsRsVerif.Lemmas.RetryHistory
 /-!
 # C17 — export failures are returned as errors and do not poison later exports
 
@@ -95,5 +96,49 @@ example :
     let w : World := { fs := fs, reg := [] }
     let t : TyInfo := { ident := "A".toList, outputPath := some "A.ts".toList, text := .ok "x\n\nexport type A = 1;\n".toList, deps := [] }
     (exportInto w t "./bindings".toList).2 = .err .io := by decide
+
+/-- **a failed export is not recorded as done; after the obstacle is removed the retry — and everything after it — gives the
+directory contents of the history in which the failure never happened.** `w₁`: the world after any history `done` over any number of
+files (`TInv`: each file holds the canonical text of its exports). Under ANY obstacle (`wobs`: an arbitrary file system; the process
+state — registry, lock — is that of `w₁`) some `export_to` returns an error (`wf`). `w₂` is the failed world with the obstacle gone:
+its file system again meets the invariant's clauses (the files of `done` as they were, no regular file on the way to a target, no
+target a directory — directories the failed step created may stay); registry and lock are what the failed step left. Then the rest
+of the history, the retry included, returns `Ok` at every step from `w₂` exactly as it does from `w₁`, both end in the invariant of
+`done ++ rest`, and every regular file has the same content in both. -/
+theorem C17_retry_as_if_never_failed (fs0 : Fs) (slots : List TSlot) (hs : TSlotsOK fs0 slots) (done : List Op) (w₁ wobs wf w₂ : World)
+    (t : TyInfo) (p : Str) (e : ExportErr) (rest : List TOp)
+    (h₁ : TInv fs0 slots done w₁)
+    (hobsR : wobs.reg = w₁.reg) (hobsP : wobs.poisoned = w₁.poisoned)
+    (hfail : exportTo wobs t p = (wf, .err e))
+    (h2R : w₂.reg = wf.reg) (h2P : w₂.poisoned = wf.poisoned)
+    (h2fs : TInv fs0 slots done (withFs w₁ w₂.fs))
+    (hr : ∀ op ∈ rest, op.1.1 < slots.length)
+    (hsp : ∀ op ∈ rest, ∀ s, slots[op.1.1]? = some s → Path.absolute (cwdStr fs0) op.2 = .ok s.path)
+    (hg : ∀ x, (∃ op ∈ rest, op.1.2 = x) ∨ (∃ op ∈ done, op.2 = x) → GenOK x)
+    (hnm : ∀ i, ((gensAt i (done ++ rest.map (·.1))).map (·.name)).Nodup)
+    (hid : ∀ i, ((gensAt i (done ++ rest.map (·.1))).map (·.ident)).Nodup) :
+    ∃ w' w'', runOpsTo slots w₂ rest = (w', true) ∧ runOpsTo slots w₁ rest = (w'', true) ∧
+      TInv fs0 slots (done ++ rest.map (·.1)) w' ∧
+      (∀ l c, w'.fs.lookup l = some (.file c) ↔ w''.fs.lookup l = some (.file c)) := by
+  obtain ⟨⟨w', r', i'⟩, ⟨w'', r'', i''⟩⟩ := retry_history fs0 slots hs done w₁ wobs wf w₂ t p e rest h₁ hobsR hobsP hfail h2R h2P h2fs hr hsp hg hnm hid
+  exact ⟨w', w'', r', r'', i', tinv_same_files fs0 slots _ w' w'' i' i''⟩
+
+/-! non-vacuity: two files; after one export the next target is a DIRECTORY; the step fails with an I/O error, registry untouched;
+with the directory gone the retry and a further export into the first file succeed and leave what the failure-free history leaves -/
+def exRA : GenT := ⟨"Alpha".toList, "Alpha".toList, [], "export type Alpha = { a: number, };".toList⟩
+def exRB : GenT := ⟨"Beta".toList, "Beta".toList, [("../Other".toList, ["Other".toList])], "export type Beta = { o: Other, };".toList⟩
+def exRO : GenT := ⟨"Other".toList, "Other".toList, [], "export type Other = string;".toList⟩
+def exRSlots : List TSlot := [⟨["w".toList, "out".toList, "deep".toList], "shared.ts".toList⟩, ⟨["w".toList, "out".toList], "Other.ts".toList⟩]
+def exRW0 : World := { fs := { nodes := [(["w".toList], .dir)], cwd := ["w".toList] }, reg := [] }
+def exRW1 : World := (runOpsTo exRSlots exRW0 [((0, exRB), "out/deep/shared.ts".toList)]).1
+def exRObs : World := { exRW1 with fs := exRW1.fs.set ["w".toList, "out".toList, "Other.ts".toList] .dir }
+def exRFail : World × Outcome := exportTo exRObs (tyOfGen exRO) "./out/Other.ts".toList
+def exRRest : List TOp := [((1, exRO), "./out/Other.ts".toList), ((0, exRA), "/w/out/deep/../deep/shared.ts".toList)]
+#guard exRFail.2 == .err .io && exRFail.1.reg == exRW1.reg && !exRFail.1.poisoned
+#guard (runOpsTo exRSlots { exRFail.1 with fs := exRW1.fs } exRRest).2 && (runOpsTo exRSlots exRW1 exRRest).2
+#guard [["w".toList, "out".toList, "deep".toList, "shared.ts".toList], ["w".toList, "out".toList, "Other.ts".toList]].all fun l =>
+  ((runOpsTo exRSlots { exRFail.1 with fs := exRW1.fs } exRRest).1.fs.lookup l) == ((runOpsTo exRSlots exRW1 exRRest).1.fs.lookup l)
+#guard ((runOpsTo exRSlots { exRFail.1 with fs := exRW1.fs } exRRest).1.fs.lookup ["w".toList, "out".toList, "deep".toList, "shared.ts".toList])
+  == some (.file (fileText (canonSt [exRB, exRA])))
 
 end TsRs
